@@ -117,6 +117,12 @@ USER_SOURCES['raise-then-finally'] = (['def guarded():', '    try:', "        ra
                                       'guarded()', 'KeyError')
 USER_SOURCES['implicit-then-finally'] = (['def guarded2(v):', '    try:', '        return 10 // v  ' + MARK, '    finally:', "        note = 'cleaning up'", '        note = note.upper()'],
                                          'guarded2(0)', 'ZeroDivisionError')
+# exception classes that some layer between the student code and the grader (debugger base class of the call tracer, the timeout
+# wrapper, generators, unittest) gives a meaning of its own
+USER_SOURCES['stdlib-bdbquit'] = (['import bdb'], "raise bdb.BdbQuit('student quits the debugger')", 'BdbQuit')
+USER_SOURCES['stdlib-timeouterror'] = ([], "raise TimeoutError('the student says time is up')", 'TimeoutError')
+USER_SOURCES['stdlib-skiptest'] = (['import unittest'], "raise unittest.SkipTest('skipping')", 'SkipTest')
+USER_SOURCES['stdlib-notimplemented'] = ([], "raise NotImplementedError", 'NotImplementedError')
 SYNTAX_SOURCES = {
     'syntax-unclosed-paren': 'x = (1,\nprint(x)\n',
     'syntax-bad-indent': 'if True:\nx = 1\n',
